@@ -66,6 +66,16 @@ pub fn run_subject(subject: usize, input: &[u8]) -> (bool, usize) {
                     }
                 }
             }
+            // … and what it does when the peer finishes the stream: `decode_eof` on whatever is left
+            while ok {
+                match MessageCodec.decode_eof(&mut src) {
+                    Ok(Some(f)) => n += f.get_length().unwrap_or(0) as usize + 9,
+                    Ok(None) => break,
+                    Err(_) => {
+                        ok = false;
+                    }
+                }
+            }
             (ok, n)
         }
         1 => {
